@@ -11,7 +11,7 @@ theorem runOp_lock (w : World) (c : TCtl) (mi : Nat) :
     w.runOp c (.lock mi) =
       if c.stage == 0 then (do
         let m ← w.getMutex (w.mutexObj mi)
-        (w.setStage 1).branch (w.mutexObj mi) .opaque (block := m.lock.isSome))
+        (w.setStage 1).branch (w.mutexObj mi) .opaque (block := m.lock.isSome) (wait := true))
       else (do
         let (w', okk) ← w.postAcquire (w.mutexObj mi)
         if !okk then throw .expectedLock
@@ -34,7 +34,7 @@ theorem runOp_read (w : World) (c : TCtl) (li : Nat) :
       if c.stage == 0 then (do
         let s ← w.getRw (w.rwObj li)
         let wl := match s.lock with | some (.write _) => true | _ => false
-        (w.setStage 1).branch (w.rwObj li) .rwRead (block := wl))
+        (w.setStage 1).branch (w.rwObj li) .rwRead (block := wl) (wait := true))
       else (do
         let (w', okk) ← w.postAcquireRead (w.rwObj li)
         if !okk then throw .expectedRead
@@ -44,7 +44,7 @@ theorem runOp_write (w : World) (c : TCtl) (li : Nat) :
     w.runOp c (.write li) =
       if c.stage == 0 then (do
         let s ← w.getRw (w.rwObj li)
-        (w.setStage 1).branch (w.rwObj li) .rwWrite (block := s.lock.isSome))
+        (w.setStage 1).branch (w.rwObj li) .rwWrite (block := s.lock.isSome) (wait := true))
       else (do
         let (w', okk) ← w.postAcquireWrite (w.rwObj li)
         if !okk then throw .expectedWrite
@@ -82,10 +82,10 @@ theorem runOp_cvWait (w : World) (c : TCtl) (vi mi : Nat) :
       let s ← w.getCv (w.cvObj vi)
       let w1 := w.setObj (w.cvObj vi) (.condvar { s with waiters := s.waiters ++ [w.tid] })
       let w2 ← w1.releaseLock (w.mutexObj mi)
-      (w2.setStage 2).parkNow
+      (w2.setStage 2).blockNow
     | 2 => do
       let m ← w.getMutex (w.mutexObj mi)
-      (w.setStage 3).branch (w.mutexObj mi) .opaque (block := m.lock.isSome)
+      (w.setStage 3).branch (w.mutexObj mi) .opaque (block := m.lock.isSome) (wait := true)
     | _ => do
       let (w', okk) ← w.postAcquire (w.mutexObj mi)
       if !okk then throw .expectedLock
@@ -100,7 +100,7 @@ theorem runOp_cvOne (w : World) (c : TCtl) (vi : Nat) :
         | [] => pure (w.complete .unit)
         | t :: rest =>
           let w1 := w.setObj (w.cvObj vi) (.condvar { s with waiters := rest })
-          pure ((w1.setThs (w1.ths.unpark t)).complete .unit)) := rfl
+          pure ((w1.setThs (w1.ths.wake t)).complete .unit)) := rfl
 
 theorem runOp_cvAll (w : World) (c : TCtl) (vi : Nat) :
     w.runOp c (.cvAll vi) =
@@ -108,7 +108,7 @@ theorem runOp_cvAll (w : World) (c : TCtl) (vi : Nat) :
       else (do
         let s ← w.getCv (w.cvObj vi)
         let w1 := w.setObj (w.cvObj vi) (.condvar { s with waiters := [] })
-        pure ((w1.setThs (s.waiters.foldl (fun ths t => ths.unpark t) w1.ths)).complete .unit)) :=
+        pure ((w1.setThs (s.waiters.foldl (fun ths t => ths.wake t) w1.ths)).complete .unit)) :=
   rfl
 
 theorem runOp_nWait (w : World) (c : TCtl) (ni : Nat) :
